@@ -2,7 +2,7 @@
 import z3
 from pyvc.runner import unit, run_function
 from pyvc.values import *
-from pyvc.engine import State, LoopSpec
+from pyvc.engine import State, LoopSpec, _b_isinstance as BUILTIN_ISINSTANCE
 from .common import *
 
 URW = "widget/_urwid.py"
@@ -384,8 +384,9 @@ def u_clear_images(ctx):
 
 @unit("C18", "_urwid:UrwidImageScreen._ti_clear_images[top-canvas-not-composite]")
 def u_ti_clear_noncomposite(ctx):
-    """the top-level canvas is not a CompositeCanvas (e.g. a SolidFill top widget): no image can be on the new screen, so any
-    image shown before is deleted and the bookkeeping set is emptied - without an exception"""
+    """the top-level canvas is not a CompositeCanvas (e.g. a SolidFill top widget): no image can be on the new screen, so EVERY
+    image shown before - kitty images and, on Konsole, iterm2 images, which only a delete-all removes - is deleted and the
+    bookkeeping set is emptied, without an exception"""
     obs = []
     for had_images in (True, False):
         for supported in (True, False, "forced"):
@@ -403,26 +404,52 @@ def u_ti_clear_noncomposite(ctx):
             eng.genv["KittyImage"] = kitty_cls
             eng.genv["ITerm2Image"] = st.new("KittyCls", {"forced_support": False}) if forced else kitty_cls
             eng.genv["get_terminal_name_version"] = Fn(lambda e, s, a, k, forced=forced: [(("wezterm" if forced else "konsole", "22"), s)])
-            # `_ti_image_cviews` is a frozenset (see __init__ and the last line of this function): immutable
-            cviews = st.new("frozenset", {"len": 1 if had_images else 0})
-            eng.closed_classes.add("frozenset")
-            eng.methods[("frozenset", "__bool__")] = lambda e, s, recv, a, k: [(s.H(recv)["len"] > 0, s)]
+            # `_ti_image_cviews` is a frozenset (see __init__ and the last line of this function): immutable.  Its elements: D views,
+            # each of a kitty image or (Konsole) of an iterm2 image
+            D = z3.Int("n_views_before")
+            st.pc.append(D >= 1 if had_images else D == 0)
+            K = z3.Function("view_is_kitty", z3.IntSort(), z3.BoolSort())
+            WID = z3.Function("view_widget", z3.IntSort(), z3.IntSort())
+
+            def elem(i, s_):
+                i = to_z3(i)
+                widget = Rec("widget", {"wid": WID(i), "_ti_image": Rec("image", {"kitty": K(i)})})
+                return (Rec("canvas", {"widget_info": (widget, "size", "focus")}), "row", "col", "trim")
+            cviews = SeqV(D, elem, "frozenset")
             st.H(self_)["_ti_image_cviews"] = cviews
             st.H(self_)["_ti_screen_canv"] = st.new("SolidCanvas", {})
-            eng.genv["frozenset"] = Fn(lambda e, s, a, k: [_new_fs(e, s)])
+            eng.genv["frozenset"] = Fn(lambda e, s, a, k: [_new_fs(e, s)] if not a else _unsup("frozenset(x)"))
+            eng.genv["isinstance"] = Fn(lambda e, s, a, k: [(a[0].f["kitty"], s)] if isinstance(a[0], Rec) and a[0].name == "image"
+                                        else BUILTIN_ISINSTANCE(e, s, a, k))
+            orig_iter = eng.iter_concrete
+
+            def iter_concrete(v, s_, orig_iter=orig_iter):
+                if isinstance(v, SeqV) and is_sym(v.length):
+                    return [("ALL", v)]          # `f(*collection)`: all of its elements as arguments
+                return orig_iter(v, s_)
+            eng.iter_concrete = iter_concrete
             st.env["self"] = self_
             outs = run_function(eng, ctx.fn(URW, "UrwidImageScreen._ti_clear_images"), st)
             for kind, val, s in outs:
                 if kind == "raise":
                     eng.oblige(f"no-exception:{val.cls}", s, False, kind="raise")
                     continue
-                names = [x[0] for x in s.ghost["out"]]
+                calls = [x for x in s.ghost["out"] if x[0] == "clear_images"]
                 cur = s.H(self_)["_ti_image_cviews"]
                 empty_now = isinstance(cur, Ref) and s.H(cur).get("len") == 0
                 if supported and had_images:      # (True or "forced")
-                    eng.oblige("previously-shown-images-deleted-and-forgotten", s, And("clear_images" in names, empty_now), kind="post")
+                    j0 = eng.sym_int("j_sk")
+                    if any(c[1:] == () for c in calls):
+                        everything = True          # a delete-all
+                    elif calls and all(len(c) == 2 and isinstance(c[1], tuple) and c[1][0] == "ALL" for c in calls):
+                        # delete by widget: removes kitty images only (clear_images unit) - sufficient only if every view was one
+                        everything = z3.Implies(z3.And(0 <= j0, j0 < D), K(j0))
+                    else:
+                        everything = False
+                    eng.oblige("previously-shown-images-deleted(all-of-them,whatever-their-style)-and-forgotten", s, And(everything, empty_now), kind="post",
+                               replay="C18.noncomposite")
                 elif supported:
-                    eng.oblige("nothing-to-delete", s, "clear_images" not in names, kind="post")
+                    eng.oblige("nothing-to-delete", s, len(calls) == 0, kind="post")
             obs += eng.obligations
     return obs
 
@@ -591,3 +618,85 @@ def _unsup(msg):
 def _new_vs(e, s):
     s = e.fork(s)
     return s.new("viewset", {"which": "union"}), s
+
+
+# ------------------------------------------------------------------------------------------------ shard walk: what is recorded per view
+@unit("C18", "_urwid:UrwidImageScreen._ti_clear_images[view-recorded-per-canvas-view]")
+def u_ti_walk_step(ctx):
+    """One step of the shard walk (the body of `for cview in cviews`), for an arbitrary view at an arbitrary position: a view of a
+    tracked image (kitty, or iterm2 on Konsole) is recorded under a key that holds its canvas, its position on the screen AND its
+    whole extent - left / top trim, columns, rows - so that a view that is cut, narrowed or shortened differs from what was
+    recorded and is deleted by the tail (unit above); any other view records nothing.  Assumed, not proved: that `row` / `col`
+    are the view's position (the bookkeeping of urwid's shard tails)."""
+    import ast as _ast
+    fn = ctx.fn(URW, "UrwidImageScreen._ti_clear_images")
+    loops = [n_ for n_ in _ast.walk(fn) if isinstance(n_, _ast.For) and isinstance(n_.target, _ast.Name) and n_.target.id == "cview"]
+    if len(loops) != 1:
+        raise Unsupported("_ti_clear_images: the loop `for cview in cviews` was not found exactly once")
+    body = loops[0].body
+    obs = []
+    for canv_kind in ("kitty", "iterm2", "block", "text-canvas", "image-canvas-without-widget"):
+        for term in ("konsole", "wezterm"):
+            eng = ctx.engine(f"C18/_ti_clear_images[walk-step,{canv_kind},{term}]", "C18")
+            eng.default_replay = "C18.narrowed_view"
+            st = State()
+            self_, log = screen_world(ctx, eng, st)
+            eng.classes.update({"UrwidImageCanvas": ("Canvas",), "TextCanvas": ("Canvas",), "KittyImage": ("GraphicsImage",), "ITerm2Image": ("GraphicsImage",),
+                                "BlockImage": ("TextImage",)})
+            for c_ in ("UrwidImageCanvas", "KittyImage", "ITerm2Image"):
+                eng.genv[c_] = ClassV(c_)
+            eng.genv["get_terminal_name_version"] = Fn(lambda e, s, a, k, term=term: [((term, "22"), s)])
+            tl, tt, cols, rows, row, col, n_rows = z3.Ints("trim_left trim_top view_cols view_rows row col n_rows")
+            st.pc += [tl >= 0, tt >= 0, cols >= 1, rows >= 1, row >= 1, col >= 1, n_rows >= 1]
+            img_cls = {"kitty": "KittyImage", "iterm2": "ITerm2Image", "block": "BlockImage"}.get(canv_kind, "KittyImage")
+            widget = st.new("UrwidImage", {"_ti_image": st.new(img_cls, {})})
+            if canv_kind == "text-canvas":
+                canv = st.new("TextCanvas", {"widget_info": (widget, "size", "focus")})
+            elif canv_kind == "image-canvas-without-widget":
+                canv = st.new("UrwidImageCanvas", {"widget_info": None})
+            else:
+                canv = st.new("UrwidImageCanvas", {"widget_info": (widget, "size", "focus")})
+            st.ghost["added"] = []
+            views = st.new("viewset_build", {})
+
+            def add(e, s, recv, a, k):
+                s = e.fork(s)
+                s.ghost["added"] = s.ghost["added"] + [a[0]]
+                return [(None, s)]
+            eng.methods[("viewset_build", "add")] = add
+            tails = st.new("tailmap", {})
+            eng.methods[("tailmap", "__setitem__")] = lambda e, s, recv, a, k: [(None, s)]
+            eng.methods[("tailmap", "__contains__")] = lambda e, s, recv, a, k: [(e.sym_bool("in_tails"), s)]
+
+            def process_shard_tails(e, s, a, k):
+                # skips the columns taken by views that started in earlier shards: `col` moves right by some amount
+                s = e.fork(s)
+                skip = e.sym_int("skipped_cols")
+                s.pc.append(skip >= 0)
+                s.env["col"] = to_z3(s.env["col"]) + skip
+                return [(None, s)]
+            st.env.update(self=self_, image_cviews=views, shard_tails=tails, row=row, col=col, n_rows=n_rows,
+                          cview=(tl, tt, cols, rows, Opaque("attr_map"), canv), process_shard_tails=Fn(process_shard_tails))
+            outs = eng.run(body, st)
+            tracked = canv_kind == "kitty" or (canv_kind == "iterm2" and term == "konsole")
+            for kind, val, s in outs:
+                if kind == "raise":
+                    eng.oblige(f"no-exception:{val.cls}", s, False, kind="raise")
+                    continue
+                added = s.ghost["added"]
+                if not tracked:
+                    eng.oblige("untracked-view-records-nothing", s, len(added) == 0, kind="post")
+                    continue
+                col_here = None
+                ok = len(added) == 1 and isinstance(added[0], tuple)
+                if ok:
+                    key = added[0]
+                    has = lambda v: z3.Or(*[Eq(x, v) for x in key if is_sym(x) or isinstance(x, int)]) if any(is_sym(x) or isinstance(x, int) for x in key) else z3.BoolVal(False)
+                    # `col` at the time of recording: the column after the skipped tails, i.e. the final col minus this view's columns
+                    col_here = to_z3(s.env["col"]) - cols
+                    goal = And(any(x is canv for x in key), has(row), has(col_here), has(tl), has(tt), has(cols), has(rows))
+                else:
+                    goal = False
+                eng.oblige("tracked-view-recorded-once-under(canvas,row,col,left-trim,top-trim,columns,rows)", s, goal, kind="post")
+            obs += eng.obligations
+    return obs
